@@ -91,6 +91,12 @@ func worlds() []world {
 		z["o.example/65"] = []dnsref.RR{https("o.example", 1, "", listE1, 0)}
 		exp[origin+":443"] = listE1
 	})
+	// the record carries an ech parameter of length zero: present but empty. crypto/tls refuses such a list ("malformed"), which
+	// is the safe outcome; turning it into "no list" would send a plaintext hello
+	add("one-record-empty-ech-param", func(z map[string][]dnsref.RR) {
+		z["o.example/65"] = []dnsref.RR{https("o.example", 1, "", []byte{}, 0)}
+		exp[origin+":443"] = []byte{}
+	})
 	add("one-record-no-ech", func(z map[string][]dnsref.RR) {
 		z["o.example/65"] = []dnsref.RR{https("o.example", 1, "", nil, 0)}
 		exp[origin+":443"] = nil
@@ -208,9 +214,8 @@ func runOnce(sc scenario, w world, host string, choose vsched.Chooser) (inv []in
 		iv := invocation{addr: addr, ctxDone: ctx.Err() != nil, retryOf: -1, tcPtr: tc}
 		if tc != nil {
 			iv.sn = tc.ServerName
-			iv.list = append([]byte(nil), tc.EncryptedClientHelloConfigList...)
-			if tc.EncryptedClientHelloConfigList == nil {
-				iv.list = nil
+			if tc.EncryptedClientHelloConfigList != nil {
+				iv.list = append([]byte{}, tc.EncryptedClientHelloConfigList...) // empty but present stays non-nil: crypto/tls tells the two apart
 			}
 		}
 		if li, ok := lastByAddr[addr]; ok && inv[li].outcome == oRejectRetry && li == len(inv)-1 {
@@ -314,6 +319,9 @@ func check(sc scenario, inv []invocation, before, after, caller *tls.Config, exp
 				return "caller-ech-list-replaced", fmt.Sprintf("invocation %d (%s): ECH list %x, caller supplied %x", i, iv.addr, iv.list, listCaller)
 			}
 		case expectECH[iv.addr] != nil:
+			if iv.list == nil && len(expectECH[iv.addr]) == 0 {
+				return "empty-ech-list-became-nil", fmt.Sprintf("invocation %d (%s): the HTTPS record carries an empty ech parameter; DialFunc received NO list (nil), i.e. a plaintext hello would be sent", i, iv.addr)
+			}
 			if string(iv.list) != string(expectECH[iv.addr]) {
 				return "wrong-record-ech-list", fmt.Sprintf("invocation %d (%s): ECH list with public name %q, the HTTPS record that produced this address carries %q", i, iv.addr, publicNameOf(iv.list), publicNameOf(expectECH[iv.addr]))
 			}
